@@ -487,7 +487,7 @@ def work_ens(item, col):
 
 NLL_MEAN = [-1.0, 0.0, 2.5]
 NLL_LV = [-20.0, -4.0, 0.0, 5.0]
-NLL_Y = [-2.0, 0.0, 1.0]
+NLL_Y = [-2.0, 0.0, 1.0, 40.0]  # the last: a residual far above 10 (targets on a large scale)
 
 
 def nll_ref(mu, lv, y):
